@@ -58,7 +58,7 @@ class Registry:
         self.const_cache = {}
         self.const_objs = {}
         self.spec_builtins = {}
-        self.spec_forms = {"old": sf_old, "implies": sf_implies, "forall": sf_forall, "exists": sf_exists,
+        self.spec_forms = {"old": sf_old, "implies": sf_implies, "forall": sf_forall, "forallq": sf_forall, "exists": sf_exists,
                            "ite": sf_ite, "fresh_old": sf_old}
         self.native_specs = {}      # name -> (symbolic fn(ex, state, *V) -> V, concrete fn)
         self.exception_classes = {}
@@ -106,6 +106,8 @@ class Registry:
     def check_hint(self, clause):
         import ast as _ast
         t = _ast.parse(clause.strip(), mode="eval").body
+        while isinstance(t, _ast.Call) and isinstance(t.func, _ast.Name) and t.func.id == "forall" and len(t.args) == 4:
+            t = t.args[3]       # a lemma applied to every index of a range
         if not (isinstance(t, _ast.Call) and isinstance(t.func, _ast.Name) and t.func.id in self.lemma_names):
             raise Unsupported("hint is not an application of a registered lemma: " + clause)
 
@@ -185,6 +187,12 @@ class Registry:
             t = z3.Const(fresh_name(name), BytesSort)
             state.assume(z3.Length(t) == n)
             return VBytes(t)
+        if typ == "abytes":
+            n = z3.Int(fresh_name(name + "_n"))
+            state.assume(n >= 0)
+            return VABytes(z3.Array(fresh_name(name), z3.IntSort(), z3.IntSort()), n)
+        if typ.startswith("abytes:"):
+            return VABytes(z3.Array(fresh_name(name), z3.IntSort(), z3.IntSort()), int(typ[7:]))
         if typ == "str":
             return VStr(z3.String(fresh_name(name)))
         if typ == "none":
@@ -201,6 +209,16 @@ class Registry:
         if typ.startswith("sym:"):
             t = z3.Int(fresh_name(name))
             return VSym(typ[4:], t)
+        if typ.startswith("clist:"):
+            _, n, el = typ.split(":", 2)
+            o = HObj("list")
+            o.items = []
+            r = state.alloc(o)
+            if path:
+                state.paths[r.oid] = path
+            for k in range(int(n)):
+                o.items.append(self.fresh(ex, state, el, "%s_%d" % (name, k), ("%s[%d]" % (path, k)) if path else None))
+            return r
         if typ.startswith("list:"):
             el = typ[5:]
             o = HObj("list")
@@ -213,9 +231,11 @@ class Registry:
         if typ.startswith("tuple:"):
             parts = _split_top(typ[6:], ",")
             return VTuple([self.fresh(ex, state, p, "%s_%d" % (name, i)) for i, p in enumerate(parts)])
+        if typ.startswith("ptr:"):
+            return VPtr(self.fresh(ex, state, typ[4:], name, path), 0)
         if typ.startswith("barray"):
             o = HObj("barray")
-            o.arr = z3.Array(fresh_name(name), z3.IntSort(), z3.BitVecSort(8))
+            o.arr = z3.Array(fresh_name(name), z3.IntSort(), z3.IntSort())
             if ":" in typ:
                 o.n = z3.IntVal(int(typ.split(":")[1]))
             else:
@@ -411,25 +431,107 @@ def _quant(ex, state, e, q):
         raise Unsupported("forall: first argument must be a name")
     lo = ex.num(ex.ev(state, e.args[1]))
     hi = ex.num(ex.ev(state, e.args[2]))
+    lo_c, hi_c = simp(lo), simp(hi)
+    if not (isinstance(e.func, ast.Name) and e.func.id.endswith("q")) and z3.is_int_value(lo_c) and z3.is_int_value(hi_c) and hi_c.as_long() - lo_c.as_long() <= 16:
+        # small concrete range: expand (quantifier-free)
+        saved = state.frame.locals.get(var.id)
+        parts = []
+        try:
+            for c in range(lo_c.as_long(), hi_c.as_long()):
+                state.frame.locals[var.id] = VInt(c)
+                parts.append(ex.truthy(state, ex.ev(state, e.args[3])))
+        finally:
+            if saved is None:
+                state.frame.locals.pop(var.id, None)
+            else:
+                state.frame.locals[var.id] = saved
+        return VBool(simp(conj(parts)) if q == "forall" else simp(disj(parts)))
     iv = z3.Int(fresh_name(var.id))
     saved = state.frame.locals.get(var.id)
     state.frame.locals[var.id] = VInt(iv)
     n = len(state.pc)
     state.pc.append(z3.And(lo <= iv, iv < hi))
+    ex.quant_facts.append(z3.And(lo <= iv, iv < hi))
     try:
         body = ex.truthy(state, ex.ev(state, e.args[3]))
         side = state.pc[n + 1:]
     finally:
+        ex.quant_facts.pop()
         state.pc = state.pc[:n]
         if saved is None:
             state.frame.locals.pop(var.id, None)
         else:
             state.frame.locals[var.id] = saved
     rng = z3.And(lo <= iv, iv < hi)
+    if side:
+        # facts collected while evaluating the body (type invariants of the elements read: octets are 0..255)
+        # are true for every index: they become a separate quantified *fact*, not a weakening of the clause
+        fact = z3.ForAll([iv], z3.Implies(rng, z3.And(*side)))
+        state.pc.append(fact)
+    pats = _index_patterns(body, iv)
     if q == "forall":
-        # type facts about elements read inside the body (0<=b<=255) are true facts: conjoin as antecedents
-        return VBool(z3.ForAll([iv], z3.Implies(z3.And(rng, *side) if side else rng, body)))
-    return VBool(z3.Exists([iv], z3.And(rng, body, *side)))
+        good = []
+        for p_ in pats:
+            try:
+                z3.ForAll([iv], body, patterns=[p_])
+                good.append(p_)
+            except z3.Z3Exception:
+                pass
+        if good:
+            return VBool(z3.ForAll([iv], z3.Implies(rng, body), patterns=good))
+        return VBool(z3.ForAll([iv], z3.Implies(rng, body)))
+    return VBool(z3.Exists([iv], z3.And(rng, body)))
+
+
+def _index_patterns(body, iv):
+    """triggers: container reads indexed exactly by the bound variable (a[iv], s[iv])"""
+    found, seen = [], set()
+    todo = [body]
+    while todo:
+        t = todo.pop()
+        if t.get_id() in seen:
+            continue
+        seen.add(t.get_id())
+        if z3.is_quantifier(t):
+            continue
+        if z3.is_app(t):
+            k = t.decl().kind()
+            if k in (z3.Z3_OP_SELECT, z3.Z3_OP_SEQ_NTH) and t.num_args() == 2 and t.arg(1).eq(iv):
+                if not _mentions(t.arg(0), iv) and _pattern_ok(t.arg(0)):
+                    found.append(t)
+            todo.extend(t.children())
+    return found[:4]
+
+
+def _pattern_ok(t):
+    """no interpreted boolean / ite structure inside a trigger (z3 rejects those)"""
+    todo, seen = [t], set()
+    while todo:
+        x = todo.pop()
+        if x.get_id() in seen:
+            continue
+        seen.add(x.get_id())
+        if z3.is_quantifier(x):
+            return False
+        if z3.is_app(x):
+            if x.decl().kind() in (z3.Z3_OP_ITE, z3.Z3_OP_AND, z3.Z3_OP_OR, z3.Z3_OP_NOT, z3.Z3_OP_IMPLIES, z3.Z3_OP_EQ):
+                return False
+            todo.extend(x.children())
+    return True
+
+
+def _mentions(t, v):
+    todo, seen = [t], set()
+    while todo:
+        x = todo.pop()
+        if x.get_id() in seen:
+            continue
+        seen.add(x.get_id())
+        if x.eq(v):
+            return True
+        if z3.is_app(x):
+            todo.extend(x.children())
+    return False
 
 
 def sf_forall(ex, state, e):
